@@ -175,13 +175,20 @@ pub enum StepSource<'a> {
 
 pub trait SrcKind {
     const IS_STR: bool;
-    fn from_bytes(b: &[u8]) -> Option<&Self>;
+    /// owner of a private, exactly sized copy of the source
+    type Owned;
+    fn owned(b: &[u8]) -> Option<Self::Owned>;
+    fn view(o: &Self::Owned) -> &Self;
     fn as_bytes_(&self) -> &[u8];
 }
 impl SrcKind for str {
     const IS_STR: bool = true;
-    fn from_bytes(b: &[u8]) -> Option<&str> {
-        std::str::from_utf8(b).ok()
+    type Owned = Box<str>;
+    fn owned(b: &[u8]) -> Option<Box<str>> {
+        std::str::from_utf8(b).ok().map(Box::from)
+    }
+    fn view(o: &Box<str>) -> &str {
+        o
     }
     fn as_bytes_(&self) -> &[u8] {
         self.as_bytes()
@@ -189,11 +196,31 @@ impl SrcKind for str {
 }
 impl SrcKind for [u8] {
     const IS_STR: bool = false;
-    fn from_bytes(b: &[u8]) -> Option<&[u8]> {
-        Some(b)
+    type Owned = Box<[u8]>;
+    fn owned(b: &[u8]) -> Option<Box<[u8]>> {
+        Some(Box::from(b))
+    }
+    fn view(o: &Box<[u8]>) -> &[u8] {
+        o
     }
     fn as_bytes_(&self) -> &[u8] {
         self
+    }
+}
+/// A source reached through logos' blanket `impl<T: Deref> Source for T` (only usable with a hand-written `Logos` impl).
+impl SrcKind for String {
+    const IS_STR: bool = true;
+    type Owned = String;
+    fn owned(b: &[u8]) -> Option<String> {
+        let mut s = String::from_utf8(b.to_vec()).ok()?;
+        s.shrink_to_fit();
+        Some(s)
+    }
+    fn view(o: &String) -> &String {
+        o
+    }
+    fn as_bytes_(&self) -> &[u8] {
+        self.as_bytes()
     }
 }
 
@@ -584,16 +611,15 @@ macro_rules! pair_sim {
             pub fn exec(pair: &str, source: &[u8], partial: bool, extras: ExM, mut steps: StepSource, faults: bool) -> Outcome {
                 let mut stats = Stats::default();
                 let mut done: Vec<Step> = Vec::new();
-                let src: &$Src = match <$Src as SrcKind>::from_bytes(source) {
+                // exact-size private allocation
+                let owned = match <$Src as SrcKind>::owned(source) {
                     Some(s) => s,
                     None => {
                         eprintln!("api-sim: source of a str pair is not valid UTF-8");
                         std::process::exit(2);
                     }
                 };
-                // exact-size private allocation
-                let boxed: Box<$Src> = Box::from(src);
-                let src: &$Src = &boxed;
+                let src: &$Src = <$Src as SrcKind>::view(&owned);
                 let bytes = <$Src as SrcKind>::as_bytes_(src);
                 let is_str = <$Src as SrcKind>::IS_STR;
                 let len = bytes.len();
@@ -965,8 +991,9 @@ pair_sim!(pair_modes, Outer, Inner, ExA, ExB, str);
 pair_sim!(pair_bytes, BinA, BinB, ExA, ExB, [u8]);
 pair_sim!(pair_callbacks, CbA, CbB, ExA, ExB, str);
 pair_sim!(pair_anchors, AnchA, AnchB, ExA, ExB, str);
+pair_sim!(pair_manual, ManA, ManB, ExA, ExB, String);
 
-const PAIRS: [&str; 4] = ["modes", "bytes", "callbacks", "anchors"];
+const PAIRS: [&str; 5] = ["modes", "bytes", "callbacks", "anchors", "manual"];
 
 fn exec_pair(pair: &str, source: &[u8], partial: bool, extras: ExM, steps: StepSource, faults: bool) -> Outcome {
     match pair {
@@ -974,6 +1001,7 @@ fn exec_pair(pair: &str, source: &[u8], partial: bool, extras: ExM, steps: StepS
         "bytes" => pair_bytes::exec(pair, source, partial, extras, steps, faults),
         "callbacks" => pair_callbacks::exec(pair, source, partial, extras, steps, faults),
         "anchors" => pair_anchors::exec(pair, source, partial, extras, steps, faults),
+        "manual" => pair_manual::exec(pair, source, partial, extras, steps, faults),
         _ => {
             eprintln!("api-sim: unknown pair {pair:?}");
             std::process::exit(2)
@@ -1021,6 +1049,7 @@ fn gen_source(rng: &mut Rng, pair: &str) -> Vec<u8> {
             "modes" => out.extend_from_slice(rng.pick(FRAG_MODES).as_bytes()),
             "callbacks" => out.extend_from_slice(rng.pick(FRAG_CALLBACKS).as_bytes()),
             "anchors" => out.extend_from_slice(rng.pick(FRAG_ANCHORS).as_bytes()),
+            "manual" => out.extend_from_slice(rng.pick(FRAG_CALLBACKS).as_bytes()),
             _ => {
                 if rng.chance(1, 5) {
                     out.push(rng.below(256) as u8);
@@ -1036,7 +1065,7 @@ fn gen_source(rng: &mut Rng, pair: &str) -> Vec<u8> {
 fn run_one(seed: u64, mode: &str, index: u64, want_sample: bool) -> RunReport {
     let faults = mode == "c15";
     let mut rng = Rng::for_run(seed, if faults { "api-sim/c15" } else { "api-sim/c14" }, index);
-    let pair = PAIRS[(index % 4) as usize];
+    let pair = PAIRS[(index % 5) as usize];
     let source = gen_source(&mut rng, pair);
     let partial = if pair == "anchors" { rng.chance(2, 3) } else { rng.chance(1, 3) };
     let extras = ExM { count: rng.below(5) as u32, request: rng.below(4) as u64, force: false, tag: rng.below(256) as u8 };
